@@ -3,7 +3,7 @@
    per-case checks) on the MODEL's output (observation kind 25). *)
 From Coq Require Import String List Bool ZArith NArith Arith QArith.
 From GV Require Import Base.Outcome Base.AMap Model.GState Model.Creation Model.Query
-     Model.Components Model.Scc Spec.ReachDef Spec.CompSpec.
+     Model.Components Model.Scc Spec.ReachDef Spec.CompSpec Proofs.PartitionsTotalOk.
 From GV Require Export Run.RunGraph.
 Import ListNotations.
 Close Scope Q_scope.
@@ -82,7 +82,7 @@ Definition chk_all (g : zstate) : bool :=
   chk_comps g RConn cc && chk_comps g RConn wc && chk_comps g RStrong sc &&
   (* hypotheses of C10_connected_checked / C10_weak_checked *)
   (if directed (sp g) then wstep_ok_b zeqb g else step_ok_b zeqb g) &&
-  step_total_b zeqb g &&
+  step_total_b zeqb g && vec_ok_b g &&
   (* the SCC result does not depend on the neighbour iteration order *)
   match sc, sc' with
   | Ok a, Ok b => lists_eqb (canon_sets a) (canon_sets b)
